@@ -103,6 +103,7 @@ def metaRunBfgs (I : FunI F α) (fuel : Nat) (s : St F (Meta α) α) (tol : α) 
 def metaDoStep (I : FunI F α) (fuel : Nat) (s : St F (Meta α) α) : Except (Exc × F) (St F (Meta α) α × α) :=
   let sc := s.ext.stepCount + 1
   let s := { s with ext := { s.ext with stepCount := sc } }
+  let progressive := decide (sc ≤ s.ext.n) && gtb (abs s.ext.initialValue) zero
   let tol :=
     if sc ≤ s.ext.n && gtb (abs s.ext.initialValue) zero then
       abs s.ext.initialValue * pow (ofInt 10) (ofInt (Int.ofNat sc) * s.ext.precisionStep)
@@ -114,8 +115,9 @@ def metaDoStep (I : FunI F α) (fuel : Nat) (s : St F (Meta α) α) : Except (Ex
     | .error e => .error e
     | .ok s =>
       let tolTest := (if s.ext.p1.length > 0 then 1 else 0) + (if s.ext.p2.length > 0 then 1 else 0)
-      -- (repaired) a single active optimiser ends the run only when it is iterated in `full` mode
-      .ok ({ s with core := { s.core with tol := decide (tolTest = 1) && s.ext.full } }, I.value s.fn)
+      -- (repaired) a single active optimiser ends the run only when it is iterated in `full` mode and has
+      -- been run with the final tolerance (not with one of the coarser ones of the progressive steps)
+      .ok ({ s with core := { s.core with tol := decide (tolTest = 1) && s.ext.full && !progressive } }, I.value s.fn)
 
 def metaAlgo (I : FunI F α) (log10 : α → α) (fuel : Nat) : Algo F (Meta α) α :=
   { doInit := metaDoInit I log10,
